@@ -57,7 +57,7 @@ pub fn run() -> i32 {
     let mut ctx = Ctx::new("C13", "exploration");
     let seed = ctx.seed;
     let nseeds = ctx.tier.pick(32u64, 256);
-    ctx.rule = format!("full products: crypto_box_seed_keypair[_inplace] / KeyPair::from_seed (stack and Vec containers) for every seed length 0..=128 x 4 content classes against the construction SHA-512(seed)[..32] -> base-point multiplication evaluated with libsodium primitives (and libsodium's own crypto_box_seed_keypair for 32-byte seeds); crypto_kx_seed_keypair, crypto_sign_seed_keypair, SigningKeyPair::from_seed/from_secret_key for the 5-member value alphabet + {} seeded seeds; KeyPair::from_secret_key for secrets incl. unclamped patterns; PwHash::derive_keypair at minimal cost x 4 passwords x both algorithms; Ed25519->X25519 conversion of every generated signing pair: both halves == libsodium and base(x_sk) == x_pk; non-trivial = case executed in both implementations", nseeds);
+    ctx.rule = format!("full products: crypto_box_seed_keypair[_inplace] / KeyPair::from_seed (stack and Vec containers) for every seed length 0..=128 x 4 content classes against the construction SHA-512(seed)[..32] -> base-point multiplication evaluated with libsodium primitives (and libsodium's own crypto_box_seed_keypair for 32-byte seeds); crypto_kx_seed_keypair, crypto_sign_seed_keypair, SigningKeyPair::from_seed/from_secret_key for the 5-member value alphabet + {} seeded seeds; KeyPair::from_secret_key for secrets incl. unclamped patterns; PwHash::derive_keypair at minimal cost x 4 passwords x both algorithms x 5 Config hash/salt-length settings; Ed25519->X25519 conversion of every generated signing pair: both halves == libsodium and base(x_sk) == x_pk; non-trivial = case executed in both implementations", nseeds);
     ctx.assume("dishonest Ed25519 public keys (small-order / non-canonical) are outside this property's quantifier; libsodium refuses them and dryoc does not — recorded as an observation, never alarmed");
 
     // box seeds of every length
@@ -146,6 +146,15 @@ pub fn run() -> i32 {
             let r = guarded(AssertUnwindSafe(|| {
                 // an Argon2i Config is only reachable through from_string(..).into_parts()
                 let cfg: Config = if typ == 2 { Config::interactive().with_opslimit(3).with_memlimit(8192) } else { PwHash::<Vec<u8>, Vec<u8>>::from_string(&enc).unwrap().into_parts().2 };
+                // the key pair is defined by the 32-byte hash whatever hash/salt length the
+                // Config carries for password-hash objects
+                for (hl, sl) in [(16usize, 16usize), (33, 8), (64, 64), (128, 16)] {
+                    let c2 = cfg.clone().with_hash_length(hl).with_salt_length(sl);
+                    let kp2: KeyPair<SB<32>, SB<32>> = PwHash::<Vec<u8>, Vec<u8>>::derive_keypair(&pw.clone(), salt.clone(), c2).unwrap();
+                    if kp2.secret_key.as_slice() != &want_sk[..] || kp2.public_key.as_slice() != &want_pk[..] {
+                        return false;
+                    }
+                }
                 let _ = PasswordHashAlgorithm::Argon2i13;
                 let kp: KeyPair<SB<32>, SB<32>> = PwHash::<Vec<u8>, Vec<u8>>::derive_keypair(&pw.clone(), salt.clone(), cfg).unwrap();
                 kp.secret_key.as_slice() == &want_sk[..] && kp.public_key.as_slice() == &want_pk[..]
